@@ -6,6 +6,7 @@ harness in both profiles from /repo's working tree -> generated requests through
 verdict + evidence.  No verdict logic lives here beyond counting the driver's DIFF / SPEC lines and matching
 them against /verif/known_findings.txt.
 """
+import math
 import sys, os, subprocess, json, time, hashlib, re, shutil, importlib
 from concurrent.futures import ProcessPoolExecutor
 
@@ -279,7 +280,8 @@ def finding_matches(k, prop, request, prof):
     env['a'] = ints
     try:
         import math
-        return bool(eval(k['where'], {'__builtins__': {}, 'abs': abs, 'len': len, 'min': min, 'max': max, 'math': math, 'int': int, 'float': float}, env))
+        return bool(eval(k['where'], {'__builtins__': {}, 'abs': abs, 'len': len, 'min': min, 'max': max, 'math': math, 'int': int, 'float': float,
+                                      'exptail': exptail}, env))
     except Exception:
         return False
 
@@ -412,6 +414,18 @@ def write_evidence(ctx, cfg, violations):
     }
     with open(f'{VERIF}/evidence/{ctx.prop}.json', 'w') as fh:
         json.dump(ev, fh, indent=1)
+
+def exptail(x, n):
+    """sum_{i >= n} x^i / i!  (x >= 0): what a Maclaurin series of e^x cut after the term of index n-1 leaves out"""
+    if x <= 0:
+        return 0.0
+    tot, i = 0.0, n
+    while True:
+        t = math.exp(i * math.log(x) - math.lgamma(i + 1))
+        tot += t
+        if i > x and t < 1e-18 * tot:
+            return tot
+        i += 1
 
 def check(prop, tier):
     seed = int(os.environ.get('VERIF_SEED', '1'))
